@@ -136,6 +136,17 @@ func invIncludes(now, ref Inventory) (missing []string) {
 					missing = append(missing, fmt.Sprintf("guard `%s` no longer checks the same operands: reference `%s`, now %v", k, a, nc.Args))
 				}
 			}
+			haveT := map[string]int{}
+			for _, a := range nc.Tags {
+				haveT[a]++
+			}
+			for _, a := range rc.Tags {
+				if haveT[a] > 0 {
+					haveT[a]--
+				} else {
+					missing = append(missing, fmt.Sprintf("guard `%s` no longer blames the same party on failure: reference tag value `%s`, now %v", k, a, nc.Tags))
+				}
+			}
 		}
 	}
 	return missing
